@@ -32,7 +32,7 @@ ASSUMPTIONS = [
     "the termination check uses a generous wall-clock bound (20 s for a one-line expansion, retried once with 10x the bound)",
 ]
 
-NAMES = ["F", "G", "H", "X", "Y"]
+NAMES = ["F", "G", "H", "X", "Y", "None"]  # None: a name that means something to the implementation language
 PARAMS = ["a", "b", "c"]
 OPS = ["+", "-", "*", "<", ">", "<<", ">>", "==", "!=", "&&", "||", "!", "~"]
 
@@ -334,6 +334,7 @@ def case_strategy():
         ident = st.sampled_from(list(params) + others + [name, "w", "z"] + (["__VA_ARGS__"] if variadic == "..." else [variadic[:-3]] if variadic else []))
         atom = st.one_of(ident, ident, num)
         units = [atom.map(lambda x: [x]), st.sampled_from(OPS).map(lambda x: [x])]
+        units.append(st.sampled_from([["'#'"], ['"##"'], ["','"], ["'('"]]))
         if params:
             # a literal whose content is spelled like a parameter is not a parameter use
             units.append(st.sampled_from(params).flatmap(lambda q: st.sampled_from([['"' + q + '"'], ["'" + q + "'"]])))
@@ -373,7 +374,9 @@ def case_strategy():
         tab = draw(table())
         names = [m["name"] for m in tab]
         # arguments are often spelled like the parameters of the macro they are passed to (MAX(a, b))
-        atom = st.one_of(st.sampled_from(names + ["w", "q"]), num, st.sampled_from(["'x'", '"s t"', "+", "-", "<"]), st.sampled_from(PARAMS))
+        atom = st.one_of(st.sampled_from(names + ["w", "q"]), num, st.sampled_from(["'x'", '"s t"', "+", "-", "<"]), st.sampled_from(PARAMS),
+                         # constants whose content is spelled like a punctuator or operator of the macro syntax
+                         st.sampled_from(["','", "'('", "')'", "'#'", '","', '"##"', '")"']))
         arg = st.one_of(
             st.just([]),
             st.lists(atom, min_size=1, max_size=3),
